@@ -910,3 +910,5 @@ if __name__ == '__main__':  # pragma: no cover
     seams.install()
     rec = json.load(open(sys.argv[1]))
     explain(rec.get('plan', rec))
+
+INFO['rule'] += ' Round-5 additions: the recording listener is attached on TransferAddedEvent (what is reported while the cache loads is judged); live shape (checks/c03_live.py, weight 15 %): a real download / upload against a scripted peer that injects queue-failure / upload-failure / second-offer / repeated-queue messages around a slow file connection, user abort / pause / queue meanwhile; invariant C03.side_effect (reasons and timestamps of a transfer resting in FAILED / ABORTED / PAUSED / COMPLETE do not change).'
